@@ -55,6 +55,14 @@ class CtorHarness:
             self.ip.class_models[name] = (lambda name: lambda *a, **k: self.construct(name, a, k))(name)
         # canonical operand order is decided by C29; any order has the same meaning here
         self.ip.overrides["sorted_expr"] = lambda seq: list(seq)
+        # the tensor-building helpers are interpreted from source too (not the interpreter's built-in semantics)
+        for helper in ("as_tensor", "as_vector", "as_matrix", "as_scalar", "as_scalars", "unit_vector", "unit_vectors", "unit_matrix", "unit_matrices", "dyad", "relabel"):
+            self.ip.overrides.pop(helper, None)
+        # language functions that build one node: through the lifted constructor (results keep node identity)
+        for fname, cname in (("conj", "Conj"), ("real", "Real"), ("imag", "Imag"), ("sqrt", "Sqrt"), ("exp", "Exp"), ("ln", "Ln"), ("cos", "Cos"), ("sin", "Sin"), ("tan", "Tan"), ("cosh", "Cosh"), ("sinh", "Sinh"), ("tanh", "Tanh"), ("acos", "Acos"), ("asin", "Asin"), ("atan", "Atan"), ("erf", "Erf"), ("max_value", "MaxValue"), ("min_value", "MinValue")):
+            if cname in self.lifted:
+                self.ip.overrides[fname] = (lambda cname: lambda *a: self.construct(cname, tuple(uflmodel.m_scalar(x) if not isinstance(x, (T, Cnd)) else x for x in a)))(cname)
+        self.ip.overrides["atan2"] = lambda a, b: self.construct("Atan2", (a, b))
         self._install_methods()
         self._install_operators()
 
@@ -128,6 +136,12 @@ class CtorHarness:
         own = {"ufl_operands", "_ufl_expr_reconstruct_", "ufl_shape", "ufl_free_indices", "ufl_index_dimensions", "T", "dx"}
 
         def attr_hook(o, a):
+            if isinstance(o, T) and a == "__getitem__":
+                return lambda key: ip.subscript(o, key, None)
+            if isinstance(o, T) and a == "dx":
+                return lambda *ii: ip.call_function(prog.get_function("ufl.exproperators", "_dx"), [o] + list(ii), {})
+            if isinstance(o, T) and a == "T" and "T" not in o.tags:
+                return ip.call_function(prog.get_function("ufl.exproperators", "_transpose"), [o], {})
             r = prev(o, a) if prev is not None else NotImplemented
             if r is not NotImplemented:
                 return r
